@@ -1,3 +1,302 @@
-import CedarVerif.Cedar.Validation.Conformance
+import CedarVerif.Lemmas.Conformance
+/-
+C11 — Schema conformance checks accept exactly conformant data.
+
+Property theorems only (helpers: Lemmas/Conformance.lean).  The statements are about the mirrors in
+Cedar/Validation/Conformance.lean of `typecheck_restricted_expr_against_schematype`, `Type::typecheck_restricted_expr`,
+`EntitySchemaConformanceChecker::validate_entity` and `validate_request` / `validate_context`, and the declarative
+specification `InstanceOfType` / `ConformsEntity` / `ConformsContext` / `ConformsRequest` given there.
+
+* exactness (both directions, all nesting depths): `typecheckValue_iff`, `checkValue_iff`, `checkEntity_iff`,
+  `checkContext_iff`, `checkRequest_iff`;
+* every single-fault class of the statement falsifies the specification: `single_fault_rejected_*`
+  (nested faults propagate outwards through `…_value_set` / `…_value_record`, and through `…_euid_nested` for uids).
+
+Hypotheses that are really needed are shown to be needed (`checkValue_iff_needs_schematic`).  The schema is the
+*resolved* one; `Schema.schematic` (all attribute/tag types are what schema construction yields) is re-checked by the
+driver on every generated schema (`(nonschematic)` reply otherwise).
+-/
 namespace Cedar.C11
+open Cedar
+
+/-- C11 (context values): the mirror of `Type::typecheck_restricted_expr` accepts exactly the instances of the type —
+for every validator type, at every nesting depth. -/
+theorem typecheckValue_iff (v : Value) (t : CedarType) : typecheckValue v t = true ↔ InstanceOfType v t :=
+  typecheckValue_iff_instanceOf v t
+
+/-- C11 (attribute and tag values): for a type that schema construction produces, the conversion to `SchemaType`
+succeeds (no `expect` panic) and the mirror of `typecheck_restricted_expr_against_schematype` accepts exactly the
+instances of the type. -/
+theorem checkValue_iff (v : Value) (τ : CedarType) (hs : τ.schematic = true) :
+    ∃ σ, τ.toSchemaType? = some σ ∧ (checkValue v σ = true ↔ InstanceOfType v τ) := by
+  obtain ⟨σ, hσ⟩ := schematic_conv τ hs
+  refine ⟨σ, hσ, ?_⟩
+  rw [checkValue_eq_typecheckValue_aux (sizeOf v + 1) v τ σ (Nat.lt_succ_self _) hs hσ]
+  exact typecheckValue_iff v τ
+
+/-- the restriction to schematic types in `checkValue_iff` cannot be dropped: `SchemaType` is coarser than `Type`
+(singleton booleans collapse to `Bool`), so `false` passes the converted type of `True`. -/
+theorem checkValue_iff_needs_schematic :
+    ¬ (∀ (v : Value) (τ : CedarType) (σ : SchemaType), τ.toSchemaType? = some σ →
+        (checkValue v σ = true ↔ InstanceOfType v τ)) := by
+  intro h
+  have := (h (.prim (.bool false)) (.bool .tt) .bool rfl).mp (by simp [checkValue])
+  cases this
+
+/-- C11 (entities): the mirror of `validate_entity` accepts exactly the conforming entities -/
+theorem checkEntity_iff (s : Schema) (hs : s.schematic = true) (uid : EntityUID) (d : EntityData) :
+    checkEntity s uid d = .ok () ↔ ConformsEntity s uid d := by
+  unfold checkEntity ConformsEntity
+  by_cases ha : isActionType uid.ty = true
+  · simp only [ha, if_true]
+    unfold validateAction
+    cases hact : s.action? uid with
+    | none => simp
+    | some a =>
+      simp only [ite_ok_iff, Bool.and_eq_true, sameUidSet_iff, List.isEmpty_iff]
+      constructor
+      · rintro ⟨⟨h1, h2⟩, h3⟩; exact ⟨a, rfl, h1, h2, h3⟩
+      · rintro ⟨a', he, h1, h2, h3⟩; cases he; exact ⟨⟨h1, h2⟩, h3⟩
+  · simp only [ha, if_false, Bool.false_eq_true]
+    cases het : s.entityType? uid.ty with
+    | none => simp
+    | some et =>
+      obtain ⟨hsa, hst⟩ := schematic_entry hs het
+      simp only [bind_ok_iff, validateEuid_iff, validateAncestors_iff, validateTags_iff s et hst]
+      unfold validateEntityAttributes
+      constructor
+      · rintro ⟨h1, h2, h3, h4, h5⟩
+        by_cases hr : (et.requiredAttrs.all (fun a => d.attrs.any (fun kv => kv.1 == a))) = true
+        · rw [if_pos hr, validateAttrs_iff s et hsa] at h2
+          exact ⟨et, rfl, h1, (requiredAll_iff et d.attrs).mp hr, fun k v hm => (h2 k v hm).1,
+            fun k v hm => (h2 k v hm).2.1, fun k v hm => (h2 k v hm).2.2, h3, h4, h5⟩
+        · rw [if_neg hr] at h2; cases h2
+      · rintro ⟨et', he, h1, hr, h2, h3, h4, h5, h6, h7⟩
+        cases he
+        refine ⟨h1, ?_, h5, h6, h7⟩
+        rw [if_pos ((requiredAll_iff et d.attrs).mpr hr), validateAttrs_iff s et hsa]
+        exact fun k v hm => ⟨h2 k v hm, h3 k v hm, h4 k v hm⟩
+
+/-- C11 (contexts): the mirror of `validate_context` accepts exactly the conforming contexts -/
+theorem checkContext_iff (s : Schema) (action : EntityUID) (ctx : List (String × Value)) :
+    checkContext s action ctx = .ok () ↔ ConformsContext s action ctx := by
+  unfold checkContext ConformsContext
+  cases ha : s.action? action with
+  | none => simp
+  | some a =>
+    simp only [bind_ok_iff, liftEuid_ok_iff, validateEuids_iff, ite_ok_iff, typecheckValue_iff_instanceOf]
+    constructor
+    · rintro ⟨h1, h2⟩; exact ⟨a, rfl, h1, h2⟩
+    · rintro ⟨a', he, h1, h2⟩; cases he; exact ⟨h1, h2⟩
+
+/-- C11 (requests): the mirror of `validate_request` accepts exactly the conforming requests -/
+theorem checkRequest_iff (s : Schema) (q : Request) :
+    checkRequest s q = .ok () ↔ ConformsRequest s q := by
+  unfold checkRequest checkScope ConformsRequest
+  simp only [bind_ok_iff, checkScopeEntity_iff, checkApplies_iff, checkContext_iff]
+  constructor
+  · rintro ⟨⟨⟨h1, h2⟩, ⟨h3, h4⟩, h5⟩, h6⟩; exact ⟨h1, h2, h3, h4, h5, h6⟩
+  · rintro ⟨h1, h2, h3, h4, h5, h6⟩; exact ⟨⟨⟨h1, h2⟩, ⟨h3, h4⟩, h5⟩, h6⟩
+
+/-! ### single-fault mutations falsify the specification -/
+
+/-- wrong type (kind): a value is an instance only of types of its own kind -/
+theorem single_fault_rejected_wrong_kind (v : Value) (τ : CedarType) (h : InstanceOfType v τ) :
+    (∀ b, v = .prim (.bool b) → ∃ bt, τ = .bool bt) ∧
+    (∀ i, v = .prim (.int i) → τ = .long) ∧
+    (∀ s, v = .prim (.string s) → τ = .string) ∧
+    (∀ u, v = .prim (.entityUID u) → τ = .anyEntity ∨ ∃ lub, τ = .entity lub ∧ u.ty ∈ lub) ∧
+    (∀ x, v = .ext x → τ = .ext x.typeName) ∧
+    (∀ vs, v = .set vs → ∃ el, τ = .set el) ∧
+    (∀ kvs, v = .record kvs → ∃ attrs o, τ = .record attrs o) := by
+  cases h <;> simp_all
+
+/-- a fault in a set element is a fault of the set (nesting through sets) -/
+theorem single_fault_rejected_value_set (vs : List Value) (t : CedarType) (w : Value)
+    (hm : w ∈ vs) (hw : ¬ InstanceOfType w t) : ¬ InstanceOfType (.set vs) (.set (some t)) := by
+  intro h; cases h with | set _ _ h => exact hw (h w hm)
+
+/-- faults of a record: a field of the wrong type (nesting through records), a missing required field, an
+undeclared field of a closed record -/
+theorem single_fault_rejected_value_record (kvs : List (String × Value)) (attrs : Attrs) (o : Bool) :
+    (∀ k w r t, (k, w) ∈ kvs → Attrs.find? attrs k = some (r, t) → ¬ InstanceOfType w t →
+        ¬ InstanceOfType (.record kvs) (.record attrs o)) ∧
+    (∀ k t, (k, true, t) ∈ attrs → (∀ v, (k, v) ∉ kvs) → ¬ InstanceOfType (.record kvs) (.record attrs o)) ∧
+    (∀ k w, (k, w) ∈ kvs → Attrs.find? attrs k = none → o = false →
+        ¬ InstanceOfType (.record kvs) (.record attrs o)) := by
+  refine ⟨?_, ?_, ?_⟩
+  · intro k w r t hm hf hw h; cases h with | record _ _ _ h1 _ _ => exact hw (h1 k w hm r t hf)
+  · intro k t hm hab h; cases h with | record _ _ _ _ _ h3 => obtain ⟨v, hv⟩ := h3 k t hm; exact hab v hv
+  · intro k w hm hf ho h; cases h with | record _ _ _ _ h2 _ => have := h2 k w hm hf; simp [ho] at this
+
+/-- an enumerated entity id outside the declared choices, or an undeclared action uid, is not a valid uid -/
+theorem single_fault_rejected_euid (s : Schema) (u : EntityUID) :
+    (∀ et ids, s.entityType? u.ty = some et → et.enumIds = some ids → u.eid ∉ ids → ¬ ValidUid s u) ∧
+    (isActionType u.ty = true → s.action? u = none → ¬ ValidUid s u) := by
+  refine ⟨fun et ids h1 h2 h3 h => h3 (h.1 et ids h1 h2), fun h1 h2 h => ?_⟩
+  obtain ⟨a, ha⟩ := h.2 h1; rw [h2] at ha; cases ha
+
+/-- a uid occurring anywhere inside a value (through sets and records) is among the uids checked for that value -/
+theorem single_fault_rejected_euid_nested (u : EntityUID) :
+    (u ∈ Value.euids (.prim (.entityUID u))) ∧
+    (∀ vs w, w ∈ vs → u ∈ w.euids → u ∈ Value.euids (.set vs)) ∧
+    (∀ kvs k w, (k, w) ∈ kvs → u ∈ w.euids → u ∈ Value.euids (.record kvs)) := by
+  refine ⟨by simp [Value.euids], ?_, ?_⟩
+  · intro vs w hm hu
+    simp only [Value.euids]
+    induction vs with
+    | nil => cases hm
+    | cons x xs ih =>
+      simp only [Value.euidsList, List.mem_append]
+      rcases List.mem_cons.mp hm with rfl | hm'
+      · exact Or.inl hu
+      · exact Or.inr (ih hm')
+  · intro kvs k w hm hu
+    simp only [Value.euids]
+    induction kvs with
+    | nil => cases hm
+    | cons x xs ih =>
+      obtain ⟨k', x'⟩ := x
+      simp only [Value.euidsKVs, List.mem_append]
+      rcases List.mem_cons.mp hm with he | hm'
+      · cases he; exact Or.inl hu
+      · exact Or.inr (ih hm')
+
+/-- every single-fault class of the statement about (non-action) entities falsifies `ConformsEntity`:
+undeclared entity type; invalid (enumerated) uid; attribute of the wrong type; missing required attribute; undeclared
+attribute; invalid uid nested in an attribute; ancestor that is an invalid uid; ancestor of a non-permitted type;
+tag on a type without tags; tag of the wrong type; invalid uid nested in a tag -/
+theorem single_fault_rejected_entity (s : Schema) (uid : EntityUID) (d : EntityData)
+    (hna : isActionType uid.ty = false) :
+    (s.entityType? uid.ty = none → ¬ ConformsEntity s uid d) ∧
+    (¬ ValidUid s uid → ¬ ConformsEntity s uid d) ∧
+    (∀ et, s.entityType? uid.ty = some et →
+      (∀ k v r t, (k, v) ∈ d.attrs → Attrs.find? et.attrs k = some (r, t) → ¬ InstanceOfType v t → ¬ ConformsEntity s uid d) ∧
+      (∀ k t, (k, true, t) ∈ et.attrs → (∀ v, (k, v) ∉ d.attrs) → ¬ ConformsEntity s uid d) ∧
+      (∀ k v, (k, v) ∈ d.attrs → Attrs.find? et.attrs k = none → et.isOpen = false → ¬ ConformsEntity s uid d) ∧
+      (∀ k v u, (k, v) ∈ d.attrs → u ∈ v.euids → ¬ ValidUid s u → ¬ ConformsEntity s uid d) ∧
+      (∀ a, a ∈ d.ancestors → ¬ ValidUid s a → ¬ ConformsEntity s uid d) ∧
+      (∀ a, a ∈ d.ancestors → a.ty ∉ s.allowedParentTypes uid.ty → ¬ ConformsEntity s uid d) ∧
+      (∀ k v, (k, v) ∈ d.tags → et.tags = none → ¬ ConformsEntity s uid d) ∧
+      (∀ k v t, (k, v) ∈ d.tags → et.tags = some t → ¬ InstanceOfType v t → ¬ ConformsEntity s uid d) ∧
+      (∀ k v u, (k, v) ∈ d.tags → u ∈ v.euids → ¬ ValidUid s u → ¬ ConformsEntity s uid d)) := by
+  unfold ConformsEntity
+  simp only [hna, Bool.false_eq_true, if_false]
+  refine ⟨?_, ?_, ?_⟩
+  · rintro h ⟨et, he, _⟩; rw [h] at he; cases he
+  · rintro h ⟨et, _, hv, _⟩; exact h hv
+  · intro et het
+    refine ⟨?_, ?_, ?_, ?_, ?_, ?_, ?_, ?_, ?_⟩
+    · rintro k v r t hm hf hi ⟨et', he, _, _, h, _⟩; rw [het] at he; cases he; exact hi (h k v hm r t hf)
+    · rintro k t hm hab ⟨et', he, _, h, _⟩; rw [het] at he; cases he; obtain ⟨v, hv⟩ := h k t hm; exact hab v hv
+    · rintro k v hm hf ho ⟨et', he, _, _, _, h, _⟩; rw [het] at he; cases he; have := h k v hm hf; simp [ho] at this
+    · rintro k v u hm hu hv ⟨et', _, _, _, _, _, h, _⟩; exact hv (h k v hm u hu)
+    · rintro a hm hv ⟨et', _, _, _, _, _, _, h, _⟩; exact hv (h a hm).1
+    · rintro a hm ht ⟨et', _, _, _, _, _, _, h, _⟩; exact ht (h a hm).2
+    · rintro k v hm hn ⟨et', he, _, _, _, _, _, _, h, _⟩; rw [het] at he; cases he
+      obtain ⟨t, ht, _⟩ := h k v hm; rw [hn] at ht; cases ht
+    · rintro k v t hm hs hi ⟨et', he, _, _, _, _, _, _, h, _⟩; rw [het] at he; cases he
+      obtain ⟨t', ht, hi'⟩ := h k v hm; rw [hs] at ht; cases ht; exact hi hi'
+    · rintro k v u hm hu hv ⟨et', _, _, _, _, _, _, _, _, h⟩; exact hv (h k v hm u hu)
+
+/-- action entities: an undeclared action, or one differing from its schema definition in attributes, tags or
+ancestor set, does not conform -/
+theorem single_fault_rejected_action (s : Schema) (uid : EntityUID) (d : EntityData)
+    (ha : isActionType uid.ty = true) :
+    (s.action? uid = none → ¬ ConformsEntity s uid d) ∧
+    (∀ a, s.action? uid = some a →
+      (Value.beqKVs d.attrs a.attrs = false → ¬ ConformsEntity s uid d) ∧
+      (d.tags ≠ [] → ¬ ConformsEntity s uid d) ∧
+      (∀ u, (u ∈ d.ancestors ∧ u ∉ a.ancestors) ∨ (u ∉ d.ancestors ∧ u ∈ a.ancestors) → ¬ ConformsEntity s uid d)) := by
+  unfold ConformsEntity
+  simp only [ha, if_true]
+  refine ⟨?_, ?_⟩
+  · rintro h ⟨a, he, _⟩; rw [h] at he; cases he
+  · intro a hact
+    refine ⟨?_, ?_, ?_⟩
+    · rintro h ⟨a', he, hb, _⟩; rw [hact] at he; cases he; rw [h] at hb; cases hb
+    · rintro h ⟨a', _, _, ht, _⟩; exact h ht
+    · rintro u hu ⟨a', he, _, _, hs⟩; rw [hact] at he; cases he
+      rcases hu with ⟨h1, h2⟩ | ⟨h1, h2⟩
+      · exact h2 ((hs u).mp h1)
+      · exact h1 ((hs u).mpr h2)
+
+/-- every single-fault class of the statement about requests falsifies `ConformsRequest`: undeclared action,
+principal / resource of an undeclared type, with an invalid enumerated id, of a type the action does not apply to,
+and a context that does not conform (whose own fault classes are those of `single_fault_rejected_value_record`
+and `single_fault_rejected_euid`) -/
+theorem single_fault_rejected_request (s : Schema) (q : Request) :
+    (s.action? q.action = none → ¬ ConformsRequest s q) ∧
+    (s.entityType? q.principal.ty = none → ¬ ConformsRequest s q) ∧
+    (s.entityType? q.resource.ty = none → ¬ ConformsRequest s q) ∧
+    (validEnumId s q.principal = false → ¬ ConformsRequest s q) ∧
+    (validEnumId s q.resource = false → ¬ ConformsRequest s q) ∧
+    (∀ a, s.action? q.action = some a → q.principal.ty ∉ a.principals → ¬ ConformsRequest s q) ∧
+    (∀ a, s.action? q.action = some a → q.resource.ty ∉ a.resources → ¬ ConformsRequest s q) ∧
+    (¬ ConformsContext s q.action q.context → ¬ ConformsRequest s q) ∧
+    (∀ a, s.action? q.action = some a → ¬ InstanceOfType (.record q.context) a.context → ¬ ConformsRequest s q) ∧
+    (∀ u, u ∈ Value.euids (.record q.context) → ¬ ValidUid s u → ¬ ConformsRequest s q) := by
+  unfold ConformsRequest ConformsContext
+  refine ⟨?_, ?_, ?_, ?_, ?_, ?_, ?_, ?_, ?_, ?_⟩
+  · rintro h ⟨_, _, _, _, ⟨a, he, _⟩, _⟩; rw [h] at he; cases he
+  · rintro h ⟨⟨et, he⟩, _⟩; rw [h] at he; cases he
+  · rintro h ⟨_, _, ⟨et, he⟩, _⟩; rw [h] at he; cases he
+  · rintro h ⟨_, hv, _⟩; rw [h] at hv; cases hv
+  · rintro h ⟨_, _, _, hv, _⟩; rw [h] at hv; cases hv
+  · rintro a ha hp ⟨_, _, _, _, ⟨a', he, hp', _⟩, _⟩; rw [ha] at he; cases he; exact hp hp'
+  · rintro a ha hr ⟨_, _, _, _, ⟨a', he, _, hr'⟩, _⟩; rw [ha] at he; cases he; exact hr hr'
+  · rintro h ⟨_, _, _, _, _, hc⟩; exact h hc
+  · rintro a ha hi ⟨_, _, _, _, _, ⟨a', he, _, hi'⟩⟩; rw [ha] at he; cases he; exact hi hi'
+  · rintro u hu hv ⟨_, _, _, _, _, ⟨a', _, hv', _⟩⟩; exact hv (hv' u hu)
+
+/-! ### non-vacuity: a concrete schema, conforming data, and faults at depth -/
+
+/-- `entity Color enum ["red"]; entity Group; entity User in [Group] { name: String, prefs?: { tags: Set<Color> } } tags Long;
+action view appliesTo { principal: User, resource: Group, context: { n: Long } };` -/
+def exView : ActionEntry :=
+  { principals := ["User"], resources := ["Group"], context := .record [("n", true, .long)] false,
+    descendants := [], ancestors := [], attrs := [] }
+
+def exSchema : Schema :=
+  { ets := [
+      ("Color", { attrs := [], isOpen := false, tags := none, descendants := [], enumIds := some ["red"] }),
+      ("Group", { attrs := [], isOpen := false, tags := none, descendants := ["User"], enumIds := none }),
+      ("User", { attrs := [("name", true, .string),
+                           ("prefs", false, .record [("tags", true, .set (some (.entity ["Color"])))] false)],
+                 isOpen := false, tags := some .long, descendants := [], enumIds := none })],
+    acts := [(⟨"Action", "view"⟩, exView)] }
+
+def exUser (color : String) : EntityData :=
+  { attrs := [("name", .prim (.string "alice")),
+              ("prefs", .record [("tags", .set [.prim (.entityUID ⟨"Color", color⟩)])])],
+    ancestors := [⟨"Group", "g"⟩],
+    tags := [("k", .prim (.int 1))] }
+
+example : exSchema.schematic = true := by decide +kernel
+
+/-- hypotheses of `checkEntity_iff` are satisfiable and its left side is `ok`: the user conforms … -/
+example : ConformsEntity exSchema ⟨"User", "a"⟩ (exUser "red") :=
+  (checkEntity_iff exSchema (by decide +kernel) _ _).mp ((ok_iff_isOkB _).mpr (by decide +kernel))
+
+/-- … and the same user with an invalid enumerated id two levels deep (record → set → uid) does not -/
+example : ¬ ConformsEntity exSchema ⟨"User", "a"⟩ (exUser "blue") := by
+  rw [← checkEntity_iff exSchema (by decide +kernel), ok_iff_isOkB]
+  decide +kernel
+
+/-- a wrong-typed set element inside a record field is not an instance (depth 2), via the propagation lemmas -/
+example : ¬ InstanceOfType (.record [("tags", .set [.prim (.int 3)])])
+    (.record [("tags", true, .set (some (.entity ["Color"])))] false) := by
+  refine (single_fault_rejected_value_record _ _ _).1 "tags" _ true _ (List.mem_cons_self ..) rfl ?_
+  refine single_fault_rejected_value_set _ _ (.prim (.int 3)) (List.mem_cons_self ..) ?_
+  intro h; cases h
+
+example : ConformsRequest exSchema ⟨⟨"User", "a"⟩, ⟨"Action", "view"⟩, ⟨"Group", "g"⟩, [("n", .prim (.int 1))]⟩ :=
+  (checkRequest_iff _ _).mp ((ok_iff_isOkB _).mpr (by decide +kernel))
+
+example : ¬ ConformsRequest exSchema ⟨⟨"Group", "g"⟩, ⟨"Action", "view"⟩, ⟨"Group", "g"⟩, [("n", .prim (.int 1))]⟩ :=
+  (single_fault_rejected_request _ _).2.2.2.2.2.1 exView rfl (by decide +kernel)
+
+example : ¬ ConformsContext exSchema ⟨"Action", "view"⟩ [("n", .prim (.string "str"))] := by
+  rw [← checkContext_iff, ok_iff_isOkB]; decide +kernel
+
 end Cedar.C11
